@@ -224,6 +224,14 @@ InitUpdate2(s, g, v, w) ==
   ELSE LET r2 == InitSet(r1.s, g, r1.s.vName[w], w) IN
        IF r2.out # "ok" THEN Rej(s, r2.out) ELSE r2
 
+\* d.update({k1: v, k2: w}) with explicit keys (v and w may be the same value, nameless values take the key as
+\* their name): the items are stored in order, each seeing the effect of the earlier ones; all or nothing
+InitUpdateKeys(s, g, k1, v, k2, w) ==
+  LET r1 == InitSet(s, g, k1, v) IN
+  IF r1.out # "ok" THEN Rej(s, r1.out)
+  ELSE LET r2 == InitSet(r1.s, g, k2, w) IN
+       IF r2.out # "ok" THEN Rej(s, r2.out) ELSE r2
+
 \* ---- Value.name -----------------------------------------------------------------------
 SetName(s, v, name) ==
   IF s.vName[v] = name THEN Ok(s)
@@ -416,6 +424,7 @@ Apply(s, c) ==
     [] c.op = "NewNode"    -> NewNode(s, c.vs, c.ws, c.i, c.g)
     [] c.op = "ReplaceAllUses" -> ReplaceAllUses(s, c.v, c.w, c.flag)
     [] c.op = "ReplaceAllUsesSeq" -> ReplaceAllUsesSeq(s, c.vs, c.ws, c.flag)
+    [] c.op = "InitUpdateKeys" -> InitUpdateKeys(s, c.g, c.name, c.v, c.k, c.w)
 
 ApplyAll(s, cs) == FoldLeft(LAMBDA acc, c : Apply(acc, c).s, s, cs)
 Outcomes(s, cs) ==   \* the sequence of [c, out] records of running cs from s
